@@ -13,13 +13,15 @@ Definition render_verdict (o : option bool) : list N :=
   | None => [69; 70; 85; 69; 76]          (* EFUEL *)
   end.
 
-(* derivability from RFC 8610 App. B + RFC 9682 + the documented leniencies, by the verified recogniser *)
+(* derivability from RFC 8610 App. B + RFC 9682 + the documented leniencies (names as maximal tokens), by the verified recogniser *)
 Definition spec_verdict (w : list N) : list N := render_verdict (spec_accepts w).
+(* the same without the tokenisation convention (literal ABNF + leniencies) *)
+Definition lenient_verdict (w : list N) : list N := render_verdict (lenient_accepts w).
 (* derivability from the RFC rules alone *)
 Definition rfc_verdict (w : list N) : list N := render_verdict (rfc_accepts w).
 
 (* the AST shape the bridge builds (format of harness/src/bin/c03.rs), "Err syntax" / "Err semantic" otherwise *)
 Definition cddl_shape (w : list N) : list N := shape_of w.
 
-(* derivability in the grammar variant selected by a deviation mask (Deviations.v); mask 1 = the specification *)
+(* derivability in the grammar variant selected by a deviation mask (Deviations.v); mask 0 = the specification *)
 Definition variant_verdict (m : N) (w : list N) : list N := render_verdict (variant_accepts m w).
